@@ -413,6 +413,41 @@ pub struct IsoCtx {
     pub n_single: usize,
     pub n_pair: usize,
     pub n_corrupt: usize,
+    /// (ii-b) every dictionary byte x {bit flips, 00, 01, 7f, 80, ff} under a re-computed checksum
+    pub n_dictbyte: usize,
+}
+
+pub const DICT_BYTE_VARIANTS: usize = 13;
+
+/// The k-th byte-level variant of dictionary byte `b`: 8 bit flips, then 5 fixed values.
+fn dict_byte_variant(b: u8, k: usize) -> u8 {
+    match k {
+        0..=7 => b ^ (1 << k),
+        8 => 0x00,
+        9 => 0x01,
+        10 => 0x7f,
+        11 => 0x80,
+        _ => 0xff,
+    }
+}
+
+/// Header with one dictionary byte changed and the checksum re-computed (the size field is kept,
+/// so the protobuf decoder sees a same-length but structurally different dictionary).
+pub fn dict_byte_mutated(b: &HBase, pos: usize, k: usize) -> Option<Vec<u8>> {
+    let hl = b.built.header_len;
+    let mut bytes = b.built.bytes.clone();
+    let dict_end = hl - 72;
+    if 14 + pos >= dict_end {
+        return None;
+    }
+    let nv = dict_byte_variant(bytes[14 + pos], k);
+    if nv == bytes[14 + pos] {
+        return None;
+    }
+    bytes[14 + pos] = nv;
+    let sum = codec::blake2b512(&bytes[..hl - 64]);
+    bytes[hl - 64..hl].copy_from_slice(&sum);
+    Some(bytes)
 }
 
 impl IsoCtx {
@@ -426,10 +461,21 @@ impl IsoCtx {
         let n_pair = if thorough { hb.len() * singles.len() * (singles.len() - 1) / 2 } else { 0 };
         // (i): single-bit flips and truncations only
         let n_corrupt = c04.jobs.len();
-        IsoCtx { lab: std::cell::OnceCell::new(), thorough, hb, singles, singles_huge, c04, n_single, n_pair, n_corrupt }
+        let n_dictbyte = hb.iter().map(|b| (b.built.header_len - 72 - 14) * DICT_BYTE_VARIANTS).sum();
+        IsoCtx { lab: std::cell::OnceCell::new(), thorough, hb, singles, singles_huge, c04, n_single, n_pair, n_corrupt, n_dictbyte }
     }
     pub fn njobs(&self) -> usize {
-        self.n_single + self.n_pair + self.n_corrupt
+        self.n_single + self.n_pair + self.n_corrupt + self.n_dictbyte
+    }
+    fn dictbyte_of(&self, mut k: usize) -> (usize, usize, usize) {
+        for (bi, b) in self.hb.iter().enumerate() {
+            let n = (b.built.header_len - 72 - 14) * DICT_BYTE_VARIANTS;
+            if k < n {
+                return (bi, k / DICT_BYTE_VARIANTS, k % DICT_BYTE_VARIANTS);
+            }
+            k -= n;
+        }
+        (0, 0, 0)
     }
     pub fn describe(&self, job: usize) -> String {
         if job < self.n_single {
@@ -438,9 +484,12 @@ impl IsoCtx {
         } else if job < self.n_single + self.n_pair {
             let (bi, i, j) = self.pair_of(job - self.n_single);
             format!("{} {} + {}", self.hb[bi].name, mutn_label(&self.singles[i]), mutn_label(&self.singles[j]))
-        } else {
+        } else if job < self.n_single + self.n_pair + self.n_corrupt {
             let (bi, m) = &self.c04.jobs[job - self.n_single - self.n_pair];
             format!("{} {:?}", self.c04.bases[*bi].name, m)
+        } else {
+            let (bi, pos, k) = self.dictbyte_of(job - self.n_single - self.n_pair - self.n_corrupt);
+            format!("{} dictionary byte {} variant {}", self.hb[bi].name, pos, k)
         }
     }
     /// class of input for a process death (no panic site is available then)
@@ -453,6 +502,8 @@ impl IsoCtx {
             let a = format!("{:?}", self.singles[i].field).split('(').next().unwrap_or("").to_string();
             let b = format!("{:?}", self.singles[j].field).split('(').next().unwrap_or("").to_string();
             format!("{a}+{b}")
+        } else if job >= self.n_single + self.n_pair + self.n_corrupt {
+            "dictionary-byte".into()
         } else {
             let (bi, m) = &self.c04.jobs[job - self.n_single - self.n_pair];
             let hs = self.c04.bases[*bi].arch.header_size;
@@ -518,6 +569,20 @@ impl IsoCtx {
             agg.add("mutated_headers_pair", 1);
             for op in OPS {
                 judge_bytes(&bytes, op, agg, &|| json!({"leg": "field-mutation", "base": b.name, "mutation": format!("{} + {}", mutn_label(&ms[0]), mutn_label(&ms[1])), "archive": hex(&bytes[..bytes.len().min(900)])}));
+            }
+        } else if job >= self.n_single + self.n_pair + self.n_corrupt {
+            let (bi, pos, k) = self.dictbyte_of(job - self.n_single - self.n_pair - self.n_corrupt);
+            let b = &self.hb[bi];
+            let bytes = match dict_byte_mutated(b, pos, k) {
+                Some(x) => x,
+                None => return,
+            };
+            agg.add("dictionary_byte_mutations", 1);
+            for op in OPS {
+                judge_bytes(&bytes, op, agg, &|| json!({"leg": "dictionary-byte", "base": b.name, "dict_offset": pos, "variant": k, "archive": hex(&bytes[..bytes.len().min(900)])}));
+            }
+            if job % 2503 == 11 {
+                agg.sample(|| json!({"leg": "dictionary-byte", "base": b.name, "dict_offset": pos, "variant": k}));
             }
         } else {
             let (bi, m) = &self.c04.jobs[job - self.n_single - self.n_pair];
@@ -609,9 +674,9 @@ pub fn run(rep: &mut Report) {
     server_leg(rep);
     let ev = rep.agg.get("operations") + rep.agg.get("server_cases");
     rep.set("evaluations", json!(ev));
-    rep.set("distinct_nontrivial", json!(rep.agg.get("mutated_headers_single") + rep.agg.get("mutated_headers_pair") + rep.agg.distinct_count("server_case_kinds")));
+    rep.set("distinct_nontrivial", json!(rep.agg.get("mutated_headers_single") + rep.agg.get("mutated_headers_pair") + rep.agg.get("dictionary_byte_mutations") + rep.agg.distinct_count("server_case_kinds")));
     rep.set("exhaustive", json!(true));
-    rep.set("rule", json!("(i) every single-bit flip and truncation of three small valid archives, cloned with and without a seed; (ii) structurally valid headers with re-computed checksum written by the independent encoder: every field of every message (chunker parameters, compression, sizes, checksums' lengths, rebuild indexes, descriptor sizes/offsets, chunk data offset, missing sub-messages, duplicated / missing descriptors, 100 kB version string) set to every value of an adversarial alphabet, singly (quick) and in all pairs (thorough), each opened + info-printed, cloned, cloned with a seed (recorded chunker parameters in use) and cloned in place; (iii) 13 server misbehaviours at every request position with retry budget 0 and 2 through the real clone_cmd; every case in an isolated worker with a 6 GiB address-space limit, a 20 s per-operation watchdog and chunk-count horizons; oracle: success or reported error, never panic / process death / watchdog / horizon; non-trivial = distinct mutated headers + distinct server cases"));
+    rep.set("rule", json!("(i) every single-bit flip and truncation of three small valid archives, cloned with and without a seed; (ii) structurally valid headers with re-computed checksum written by the independent encoder: every field of every message (chunker parameters, compression, sizes, checksums' lengths, rebuild indexes, descriptor sizes/offsets, chunk data offset, missing sub-messages, duplicated / missing descriptors, 100 kB version string) set to every value of an adversarial alphabet, singly (quick) and in all pairs (thorough), each opened + info-printed, cloned, cloned with a seed (recorded chunker parameters in use) and cloned in place; (ii-b) every byte of the protobuf dictionary replaced by each of its 8 single-bit flips and by {00, 01, 7f, 80, ff} under a re-computed checksum (the decoder sees well-checksummed but structurally damaged dictionaries); (iii) 13 server misbehaviours at every request position with retry budget 0 and 2 through the real clone_cmd; every case in an isolated worker with a 6 GiB address-space limit, a 20 s per-operation watchdog and chunk-count horizons; oracle: success or reported error, never panic / process death / watchdog / horizon; non-trivial = distinct mutated headers + distinct server cases"));
     rep.assume("a chunk may legitimately declare up to 2^32-1 bytes (pre-allocated by decompress); only one such buffer exists at a time in these runs");
     rep.assume("byte strings not reachable by <= 2 simultaneous field mutations or a single bit flip / truncation are not covered");
 }
